@@ -21,6 +21,7 @@ duplicate names).  After EACH assignment:
 """
 import copy
 import json
+import math
 import random
 from fractions import Fraction
 
@@ -39,10 +40,10 @@ LEAN = {"module": "Pygom.Props.C09", "extra_modules": ["Pygom.Lemmas.Params"],
                      "Pygom.C09.pairs_unmentioned_binds_zero", "Pygom.C09.legacy_rejected_dict_leaks_counterexample",
                      "Pygom.C09.legacy_time_symbol_commits_counterexample", "Pygom.C09.history_binding_legacy_counterexample",
                      "Pygom.C09.copies_bind_by_name", "Pygom.C09.restore_preserves_abs", "Pygom.C09.setstate_rebuild_counterexample",
-                     "Pygom.C09.early_exit_input_order_counterexample",
+                     "Pygom.C09.early_exit_input_order_counterexample", "Pygom.C09.early_exit_close_values_counterexample",
                      "Pygom.Params.unrollPure_get", "Pygom.Params.lv_dset", "Pygom.Params.Inv_dset", "Pygom.Params.lv_foldl_dset"]}
-BUDGET = {"quick": {"models": 900, "malformed": 600, "coincide": 300, "max_ops": 8},
-          "thorough": {"models": 12000, "malformed": 8000, "coincide": 4000, "max_ops": 20}}
+BUDGET = {"quick": {"models": 900, "malformed": 600, "coincide": 300, "scale": 400, "max_ops": 8},
+          "thorough": {"models": 12000, "malformed": 8000, "coincide": 4000, "scale": 6000, "max_ops": 20}}
 RULE = ("random model definitions (shared generator, lambda back-end; an extra event is added for every parameter that would "
         "not occur in the ODE) x random histories of 1-8 (thorough 1-20) assignments: list/tuple/ndarray (1-d, column), "
         "permuted pair lists (str / ODEVariable names), full and partial dicts (str / sympy.Symbol keys, any order, any "
@@ -65,14 +66,30 @@ RULE = ("random model definitions (shared generator, lambda back-end; an extra e
         "swap, reversal, the order of the previous by-name assignment) with values that, read in the written order, are the held "
         "values in declared order (pairs, full dict, partial dict of the changed names); the held values permuted and given "
         "positionally; the identical map again in another form and order; one value for several names; zeros; partial dicts "
-        "swapping the values of two or three names or re-assigning held values (tags coincide:*).  A case is non-trivial when "
-        "the history contains an accepted permuted or partial assignment")
+        "swapping the values of two or three names or re-assigning held values (tags coincide:*).  400 further cases (thorough 6000) are "
+        "VALUE SCALES (tags stream:scale, scale-regime:tiny|huge|mixed|unit|headcount, scale:<update>): a model family in which every ODE "
+        "component is one monomial +-p*y or +-p*q*y with y a power of two at the evaluation point (states 2^-20..2^30; every parameter has a "
+        "linear term, most a bilinear one; entered through random API routes), a full assignment with values of 1e-13..1e-5 (tiny), "
+        "1e5..1e13 (huge), O(1) (unit), a mix of these in one vector (mixed) or per-capita rates c/N next to O(1) rates (headcount), decimal or "
+        "dyadic, 15% negative, now and then an exact 0; then accepted assignments in every form (list/tuple/ndarray carrying the held values of "
+        "the rest, permuted pairs, full dict, partial dict of the changed names) that move 1..n names by a relative 1e-6 / 1e-9 / 1e-12, by 1 ulp "
+        "up or down, by 1e-9 absolute, by a factor 2 or 1/2, to exactly 0, from 0, to the opposite sign, to a fresh value of the same or of "
+        "another scale; malformed assignments, fresh full assignments and copy.deepcopy (history continuing on the copy) in between.  There the "
+        "direct oracle is the closed form in plain float arithmetic on the values supplied by name, compared with == on every entry of ode and grad "
+        "that is linear in the parameters (scaling by a power of two is exact) and to 1e-15 relative on the bilinear ode entries, and the 50-digit "
+        "interpreter to 1e-12 relative per entry - no absolute floor anywhere; evaluations that must not change (rejected assignment, other "
+        "instance) must return the same floats.  A case is non-trivial when the history contains an accepted permuted or partial assignment "
+        "(scale cases: an accepted scaled update)")
 ASSUMPTIONS = ["the setter variant (atomic or not: does a rejected assignment leave _parameters/_paramValue touched) is MEASURED on the "
                "tree under test by a fixed two-assignment probe through the public getter and ode(); the theorems cover both variants: "
                "history_binding needs the atomic one, for the other the *_counterexample theorems hold and the direct oracle reports the violation",
                "frozen-distribution and (callable, args) dict values are not modelled (C16)",
                "parameters declared as ODEVariable objects whose name differs from their ID are out of scope (declared by string here)",
-               "evaluation comparisons: relative 1e-9 / absolute 1e-11 against a 50-digit reference",
+               "evaluation comparisons of the regular / malformed / coincide streams: relative 1e-9 / absolute 1e-11 against a 50-digit reference "
+               "(their values are 1/16..400 and the states 1/3..40, so results are 1e-3..1e7 or exactly 0: the absolute floor hides nothing there "
+               "and the relative part carries the large ones); the value-scale stream has no absolute floor (exact / relative per entry, see RULE)",
+               "value-scale stream: binary floating point with exact scaling by powers of two and correctly rounded products (IEEE 754 doubles, "
+               "no flush-to-zero; products stay within 1e-40..1e40); negative values and 0 are accepted parameter values (the tree as found accepts them)",
                "copies: copy.deepcopy gives an independent instance that starts with its original's bindings (Params.restore false; "
                "Pygom.C09.copies_bind_by_name); copy.copy shares the bound evaluator methods with its original on the tree as found, "
                "so a shallow copy is only judged at the moment it is made (and that the original is not disturbed by what is done "
@@ -511,6 +528,218 @@ def gen_coincide_case(rng, budget):
             "xforms": [[rng.choice(EVAL_FORMS), rng.choice(EVAL_TFORMS)] for _ in range(len(hist) + 1)]}
 
 
+# ---- value scales ---------------------------------------------------------------------------------------------
+# The streams above use O(1) values that change by O(1).  The binding of the property is about NAMES whatever the size of
+# the numbers and whatever the size of the change: a model in absolute head counts has per-capita rates of 1e-9, an
+# optimiser near convergence moves a parameter by 1 part in 1e9, a finite-difference step by 1 ulp.  (In Params.lean the
+# values are rationals and the setter never compares them: `binding_refines_spec` holds for every value, so a setter that
+# drops an assignment because the new numbers are "close to" the held ones departs from the model - and the direct oracle
+# below decides that the property fails.)
+#
+# So that EVERY such difference is visible in ode/grad and the expected value needs no tolerance, these cases use their own
+# model family: every ODE component is ONE monomial, sign * p_k * y (or sign * p_k * p_l * y), y a state whose value at the
+# evaluation point is a power of two.  Then  ode[s] = +-float(p_k)*y  EXACTLY in binary floating point (scaling by a power
+# of two is exact; for the bilinear terms the one rounding of p_k*p_l commutes with it), d ode[s]/d p_k = +-y exactly and
+# d(p_k*p_l*y)/d p_k = +-float(p_l)*y exactly: the oracle compares with == on the linear terms and to 4 ulp on the bilinear
+# ones.  Every parameter has a linear term (so a change of 1 ulp in any parameter is seen by ode), most have a bilinear one
+# (so grad sees the values too).
+SCALE_REGIMES = [("tiny", 3), ("huge", 2), ("mixed", 4), ("unit", 2), ("headcount", 2)]
+SCALE_UPDATES = [("rel1e-6", 3), ("rel1e-9", 2), ("rel1e-12", 1), ("ulp_up", 2), ("ulp_down", 1), ("double", 2), ("half", 1),
+                 ("to_zero", 3), ("sign_flip", 2), ("abs1e-9", 2), ("fresh", 2), ("cross", 1)]
+
+
+def _fs(f):
+    f = Fraction(f)
+    return str(f.numerator) if f.denominator == 1 else "%d/%d" % (f.numerator, f.denominator)
+
+
+def scaled_value(rng, cls):
+    """an exact rational of the size class `cls`: unit O(1); tiny 1e-13..1e-5; huge 1e5..1e13 (decimal or dyadic); 15% negative"""
+    if cls == "unit":
+        v = Fraction(rng.randint(1, 40), rng.choice([1, 2, 4, 5, 8, 10]))
+    elif rng.random() < 0.5:
+        v = Fraction(rng.randint(1, 99), 10) * Fraction(10) ** rng.randint(6, 12)
+        v = v if cls == "huge" else Fraction(rng.randint(1, 99), 10) / Fraction(10) ** rng.randint(6, 12)
+    else:
+        m, k = rng.choice([1, 3, 5, 7, 11, 13]), rng.randint(20, 40)
+        v = Fraction(m * 2 ** k) if cls == "huge" else Fraction(m, 2 ** k)
+    return -v if rng.random() < 0.15 else v
+
+
+def scale_update(rng, kind, v, cls):
+    """the new value of a parameter holding v (exact rationals; the float the model receives is float(new))"""
+    v = Fraction(v)
+    if v == 0:
+        return scaled_value(rng, cls)
+    if kind.startswith("rel1e-"):
+        return v * (1 + Fraction(rng.choice([1, -1, 3]), 10 ** int(kind[6:])))
+    if kind in ("ulp_up", "ulp_down"):
+        return Fraction(math.nextafter(float(v), math.inf if kind == "ulp_up" else -math.inf))
+    if kind == "double":
+        return 2 * v
+    if kind == "half":
+        return v / 2
+    if kind == "to_zero":
+        return Fraction(0)
+    if kind == "sign_flip":
+        return -v
+    if kind == "abs1e-9":
+        return v + Fraction(rng.choice([1, -1, 5]), 10 ** 9)
+    if kind == "cross":
+        return scaled_value(rng, rng.choice([c for c in ("tiny", "huge", "unit") if c != cls]))
+    return scaled_value(rng, cls)
+
+
+def gen_scale_model(rng):
+    """-> (spec, meta, terms, point): every ODE component is one monomial (see above); entered through random API routes"""
+    n = rng.randint(1, 5)
+    params = rng.sample(gen.PARAM_POOL, n)
+    names = rng.sample(gen.STATE_POOL, len(gen.STATE_POOL))
+    states, procs, odes, terms = [], [], [], []
+    drivers = [names.pop() for _ in range(rng.randint(1, 2))]
+
+    def add_term(k, co):
+        form = gen.wchoice(rng, [("B", 3), ("D", 3), ("T", 2), ("ode", 2)])
+        if form == "T" and len(names) < 2:
+            form = "D"
+        own = names.pop()
+        states.append(own)
+        y = own if form in ("D", "T") and rng.random() < 0.7 else rng.choice(drivers + [own])
+        rate = E.mul(E.var(params[k]), E.var(y))
+        if co is not None:
+            rate = E.mul(E.mul(E.var(params[k]), E.var(params[co])), E.var(y)) if rng.random() < 0.5 else E.mul(rate, E.var(params[co]))
+        if form == "ode":
+            sign = rng.choice([1, -1])
+            odes.append({"state": own, "expr": rate if sign == 1 else E.neg(rate)})
+            targets = [[own, sign]]
+        elif form == "B":
+            procs.append({"rate": rate, "kind": "linear", "transitions": [{"type": "B", "origin": None, "dest": own, "mag": E.num(1)}]})
+            targets = [[own, 1]]
+        elif form == "D":
+            procs.append({"rate": rate, "kind": "linear", "transitions": [{"type": "D", "origin": own, "dest": None, "mag": E.num(1)}]})
+            targets = [[own, -1]]
+        else:
+            dest = names.pop()
+            states.append(dest)
+            procs.append({"rate": rate, "kind": "linear", "transitions": [{"type": "T", "origin": own, "dest": dest, "mag": E.num(1)}]})
+            targets = [[own, -1], [dest, 1]]
+        terms.append({"p": params[k], "co": (params[co] if co is not None else None), "y": y, "targets": targets})
+
+    for k in range(n):
+        add_term(k, None)
+    if n >= 2:
+        for k in range(n):
+            if len(names) >= 2 and rng.random() < 0.7:
+                add_term(k, rng.choice([j for j in range(n) if j != k]))
+    states += drivers
+    rng.shuffle(states)
+    abstract = {"decl_states": list(states), "states": list(states), "params": params, "derived": [], "procs": procs, "odes": odes, "lims": None}
+    spec, meta = gen.make_spec(rng, abstract, gen.ALL_ROUTES, shuffle=True)
+    point = {s: _fs(Fraction(2) ** rng.randint(-20, 30)) for s in states}
+    point["t"] = _fs(Fraction(rng.randint(0, 36), 12))
+    return spec, meta, terms, point
+
+
+def _scale_form_op(rng, params, new, changed, elt):
+    """the assignment `changed names -> new values` in a random accepted form (full forms carry the held values of the rest)"""
+    n = len(params)
+    form = gen.wchoice(rng, [("nums", 3), ("arr", 2), ("pairs", 3), ("dict_full", 2), ("dict_partial", 6)])
+    vals = [_fs(new[p]) for p in params]
+    if form == "nums":
+        return {"k": "nums", "seq": rng.choice(["list", "tuple"]), "vals": vals, "elt": elt, "scribble": rng.random() < 0.2, "cls": "nums"}
+    if form == "arr":
+        return {"k": "arr", "shape": "1d", "len": n, "flat": vals, "dtype": "float64", "scribble": rng.random() < 0.2, "cls": "arr_1d"}
+    if form in ("pairs", "dict_full"):
+        order = list(range(n))
+        rng.shuffle(order)
+        if form == "pairs":
+            return {"k": "pairs", "seq": rng.choice(["list", "tuple"]), "elt": elt, "scribble": False,
+                    "ps": [[_key(rng, params[i], ("str", "str", "str", "odevar")), vals[i]] for i in order],
+                    "cls": "pairs_perm" if order != list(range(n)) else "pairs_inorder"}
+        kinds = rng.choice([("str",), ("sym",), ("str", "sym")])
+        return {"k": "dict", "elt": elt, "scribble": False, "es": [[_key(rng, params[i], kinds), vals[i]] for i in order], "cls": "dict_full"}
+    names = list(changed)
+    rest = [p for p in params if p not in changed]
+    if rest and rng.random() < 0.25:
+        names.append(rng.choice(rest))                    # ... and a name that keeps its value
+    rng.shuffle(names)
+    return _by_name_op(rng, names, [_fs(new[p]) for p in names], elt, False, n)
+
+
+def gen_scale_case(rng, budget):
+    """one model of the monomial family; a full assignment at the regime's value scales, then accepted assignments that
+    change some names by a tiny relative amount / 1 ulp / a factor / to or from exactly 0 / in sign / by 1e-9 absolute,
+    now and then a malformed one, a fresh full assignment or a copy.deepcopy with the history continuing on the copy"""
+    spec, meta, terms, point = gen_scale_model(rng)
+    params = meta["params"]
+    n = len(params)
+    regime = gen.wchoice(rng, SCALE_REGIMES)
+    if regime == "mixed":
+        classes = [rng.choice(["tiny", "huge", "unit"]) for _ in params]
+    elif regime == "headcount":
+        # per-capita contact rates c/N next to O(0.1..1) rates per day (the SIR in absolute numbers)
+        classes = [("tiny" if (i == 0 or rng.random() < 0.4) else "unit") for i in range(n)]
+    else:
+        classes = [regime] * n
+    cls_of = dict(zip(params, classes))
+    hist, cur = [], None
+    nops = rng.randint(2, max(2, min(budget["max_ops"], 7)))
+    ninst, subject = 1, 0
+    curs = [None]
+    for _ in range(nops):
+        u = rng.random()
+        elt = rng.choice(["float", "float", "np_float64", "mixed"])
+        cur = curs[subject]
+        if cur is not None and u < 0.07 and ninst < MAX_INSTANCES:
+            hist.append({"k": "clone", "how": "deepcopy", "src": subject, "cls": "clone_deepcopy"})
+            curs.append(dict(cur))
+            ninst += 1
+            if rng.random() < 0.6:
+                subject = ninst - 1
+            continue
+        if cur is None or u < 0.15:
+            new = {p: scaled_value(rng, cls_of[p]) for p in params}
+            if cur is None and rng.random() < 0.15:
+                new[rng.choice(params)] = Fraction(0)
+            op = _scale_form_op(rng, params, new, list(params), elt)
+            op["scl"] = ["base"]
+        elif u < 0.23:
+            op = gen_malformed_op(rng, params, Vals(rng))
+        else:
+            m = rng.randint(1, n) if rng.random() < 0.6 else 1
+            changed = rng.sample(list(params), m)
+            new, kinds = dict(cur), []
+            same_kind = gen.wchoice(rng, SCALE_UPDATES) if rng.random() < 0.5 else None
+            for p in changed:
+                kind = same_kind or gen.wchoice(rng, SCALE_UPDATES)
+                if cur[p] is None:
+                    kind = "fresh"
+                    new[p] = scaled_value(rng, cls_of[p])
+                else:
+                    kind = "from_zero" if cur[p] == 0 else kind
+                    new[p] = scale_update(rng, kind, cur[p], cls_of[p])
+                kinds.append(kind)
+            if any(v is None for v in new.values()):
+                new = {p: (scaled_value(rng, cls_of[p]) if v is None else v) for p, v in new.items()}
+                changed = list(params)
+                op = _scale_form_op(rng, params, new, changed, elt)
+                while op["k"] == "dict" and len(op["es"]) < n:
+                    op = _scale_form_op(rng, params, new, changed, elt)
+            else:
+                op = _scale_form_op(rng, params, new, changed, elt)
+            op["scl"] = sorted(set(kinds))
+        op["inst"] = subject
+        verdict, new = oracle_step(params, cur, op)              # the generator follows the property's own spec
+        if verdict == "accept":
+            curs[subject] = new
+        elif verdict == "either":
+            curs[subject] = None if new is None else dict(new)
+        hist.append(op)
+    return {"spec": spec, "meta": meta, "history": hist, "malformed": False, "scale": {"regime": regime, "classes": classes, "terms": terms},
+            "point": point, "decoy": rng.random() < 0.3,
+            "xforms": [[rng.choice(EVAL_FORMS), rng.choice(EVAL_TFORMS)] for _ in range(len(hist) + 1)]}
+
+
 def make_cases(rng, tier, budget):
     cases = []
     for i in range(budget["models"]):
@@ -519,13 +748,16 @@ def make_cases(rng, tier, budget):
         cases.append(gen_case(random.Random(rng.getrandbits(64)), budget, True))
     for i in range(budget.get("coincide", 0)):
         cases.append(gen_coincide_case(random.Random(rng.getrandbits(64)), budget))
+    for i in range(budget.get("scale", 0)):
+        cases.append(gen_scale_case(random.Random(rng.getrandbits(64)), budget))
     return cases
 
 
 def search_cases(rng, tier, budget):
     out = [gen_case(random.Random(rng.getrandbits(64)), budget, i % 2 == 0, copies=(i % 3 != 2))
            for i in range(3 * (budget["models"] + budget["malformed"]))]
-    return out + [gen_coincide_case(random.Random(rng.getrandbits(64)), budget) for _ in range(3 * budget.get("coincide", 0))]
+    out += [gen_coincide_case(random.Random(rng.getrandbits(64)), budget) for _ in range(3 * budget.get("coincide", 0))]
+    return out + [gen_scale_case(random.Random(rng.getrandbits(64)), budget) for _ in range(3 * budget.get("scale", 0))]
 
 
 # ----------------------------------------------------------------------------------------------
@@ -809,19 +1041,24 @@ def evaluate(model, x, t):
         return ("raise", type(exc).__name__, str(exc)[:120])
 
 
-def same_eval(a, b):
-    """two evaluations of the same instance (possibly with the state passed in another container type): equal up to 1e-12"""
+def same_eval(a, b, exact=False):
+    """two evaluations of the same instance (possibly with the state passed in another container type): equal up to 1e-12
+    relative / 1e-14 absolute (values of the O(1) streams are 1e-3..1e6); `exact` (value-scale cases, whose results may be
+    1e-20 or 1e25): the same floats - the same compiled expression on the same numbers"""
     if a[0] != b[0]:
         return False
     if a[0] == "raise":
         return a[1] == b[1]
+    if exact:
+        return bool(len(a[1]) == len(b[1]) and len(a[2]) == len(b[2]) and all(float(u) == float(v) for u, v in zip(a[1], b[1]))
+                    and all(float(u) == float(v) for u, v in zip(a[2], b[2])))
     return bool(len(a[1]) == len(b[1]) and len(a[2]) == len(b[2]) and vec_close(a[1], b[1], 1e-12, 1e-14) and vec_close(a[2], b[2], 1e-12, 1e-14))
 
 
 def classify_wrong(name, actual, expected, idx, history, verdicts):
     """which value did the name get instead (for the violation signature)"""
     try:
-        a = Fraction(actual).limit_denominator(10 ** 6) if actual is not None else None
+        a = Fraction(float(actual)) if actual is not None else None      # exact: tiny values are not zero
     except Exception:
         return "non-numeric"
     if a is None:
@@ -842,11 +1079,59 @@ def classify_wrong(name, actual, expected, idx, history, verdicts):
     for key in ("vals", "flat"):
         others += [Fraction(v) for v in op.get(key, [])]
     others += [Fraction(v) for r, v in op.get("ps", [])] + [Fraction(v) for r, v in op.get("es", []) if v is not None]
-    if a != expected and any(float(v) == float(a) for v in others):
+    if float(a) != float(expected) and any(float(v) == float(a) for v in others):
         return "value-of-another-name"
     if a == 0:
         return "zero"
     return "stale-or-other"
+
+
+def rel_close(a, b, rel):
+    """entry by entry RELATIVE (no absolute floor: an entry of 1e-18 is compared as strictly as one of 1e+18; 0 only equals 0)"""
+    return len(a) == len(b) and all(abs(float(u) - float(v)) <= rel * max(abs(float(u)), abs(float(v))) for u, v in zip(a, b))
+
+
+def scale_expected(sc, params, states, xs, cur):
+    """DIRECT ORACLE of the monomial family (plain float arithmetic on the values supplied by name; no pygom, no Lean):
+    -> (ode, grad row-major nS x nP, loose): exact floats; `loose[i]` marks entries that stem from a bilinear term (4 ulp)"""
+    nS, nP = len(states), len(params)
+    xv = dict(zip(states, xs))
+    th = {p: float(cur[p]) for p in params}
+    ode = [0.0] * nS
+    grad = [0.0] * (nS * nP)
+    lo_f, lo_g = [False] * nS, [False] * (nS * nP)
+    for tm in sc["terms"]:
+        y = xv[tm["y"]]
+        k = params.index(tm["p"])
+        for st, sign in tm["targets"]:
+            i = states.index(st)
+            if tm["co"] is None:
+                ode[i] = sign * (th[tm["p"]] * y)
+                grad[i * nP + k] = sign * y
+            else:
+                l = params.index(tm["co"])
+                ode[i] = sign * ((th[tm["p"]] * th[tm["co"]]) * y)
+                grad[i * nP + k] = sign * (th[tm["co"]] * y)
+                grad[i * nP + l] = sign * (th[tm["p"]] * y)
+                lo_f[i] = True
+    return ode, grad, lo_f, lo_g
+
+
+def scale_wrong(sc, params, states, xs, cur, now_eval):
+    """None, or what is wrong with (ode, grad) of a value-scale case"""
+    ode, grad, lo_f, lo_g = scale_expected(sc, params, states, xs, cur)
+    for name, got, want, loose in (("ode", now_eval[1], ode, lo_f), ("grad", now_eval[2], grad, lo_g)):
+        if len(got) != len(want):
+            return "%s has %d entries, expected %d" % (name, len(got), len(want))
+        for i, (g, w) in enumerate(zip(got, want)):
+            g = float(g)
+            ok = (abs(g - w) <= 1e-15 * abs(w)) if loose[i] else (g == w)
+            if not ok:
+                where = states[i] if name == "ode" else "%s/%s" % (states[i // len(params)], params[i % len(params)])
+                return "%s[%s] = %r but the values given by name make it %r (%s; relative difference %.3g)" % (
+                    name, where, g, w, "product of two parameters and a power of two: 4 ulp" if loose[i] else "one parameter times a power of two: exact",
+                    abs(g - w) / abs(w) if w else float("inf"))
+    return None
 
 
 def run_case(case):
@@ -874,6 +1159,9 @@ def run_case(case):
     x = [float(pt[s]) for s in states]
     t = float(pt["t"])
     xforms = case.get("xforms") or [["list_float", "float"]] * (len(hist) + 1)
+    sc = case.get("scale")
+    if sc:
+        tags.append("scale-regime:" + sc["regime"])
 
     lean_hist = [to_lean(o) for o in hist if o["k"] != "probe_copy"]
     lean = leanio.driver().call({"op": "params", "names": params, "atomic": variant["atomic"], "history": lean_hist})
@@ -935,7 +1223,7 @@ def run_case(case):
                 tags.append("undefined_point")
             if now_eval[0] != "ok":
                 mism.append({"what": "ode-vs-lean-paramValue", "detail": "%s: python raises %s, lean has the parameters set" % (where, now_eval[1:])})
-            elif f_l is not None and not vec_close(now_eval[1], f_l):
+            elif f_l is not None and not (rel_close(now_eval[1], f_l, 1e-12) if sc else vec_close(now_eval[1], f_l)):
                 mism.append({"what": "ode-vs-lean-paramValue", "detail": "%s: ode=%s with lean _paramValue %s -> %s" % (
                     where, list(now_eval[1]), ls["pv"], [mpf_s(v) for v in f_l])})
         elif now_eval[0] == "ok":
@@ -958,11 +1246,19 @@ def run_case(case):
             f_o = net_oracle(meta, spec, env)[0]
         except (E.Undefined, ZeroDivisionError):
             f_o = None
-        ref.parameters = [float(v) for v in expected]
-        r_eval = evaluate(ref, x, t)
+        if sc:
+            r_eval = ("skipped",)          # the closed form below is the reference (and resolves 1 ulp)
+        else:
+            ref.parameters = [float(v) for v in expected]
+            r_eval = evaluate(ref, x, t)
         wrong = None
         if now_eval[0] != "ok":
             wrong = "evaluation raises %s: %s" % (now_eval[1], now_eval[2])
+        elif sc:
+            # value scales: entry by entry, no absolute floor - exact where the model is linear in the parameter
+            wrong = scale_wrong(sc, params, states, x, cur, now_eval)
+            if wrong is None and f_o is not None and not rel_close(now_eval[1], f_o, 1e-12):
+                wrong = "ode(x,t)=%s but sum rate*net at the values given is %s (relative 1e-12 per entry)" % (list(now_eval[1]), [mpf_s(v) for v in f_o])
         elif f_o is not None and not vec_close(now_eval[1], f_o):
             wrong = "ode(x,t)=%s but sum rate*net at the values given is %s" % (list(now_eval[1]), [mpf_s(v) for v in f_o])
         elif r_eval[0] == "ok" and not (vec_close(now_eval[1], r_eval[1]) and vec_close(now_eval[2], r_eval[2])):
@@ -1085,6 +1381,10 @@ def run_case(case):
                 tags.append("elt:%s" % (op.get("elt") or op.get("dtype")))
             if op.get("coin"):
                 tags.append("coincide:%s:%s" % (op["coin"], "accepted" if accepted else perr))
+            for sk in op.get("scl", []):
+                tags.append("scale:%s:%s" % (sk, "accepted" if accepted else perr))
+                if accepted and sk != "base":
+                    nontrivial = True             # a value-scale case exercises the mechanism when a scaled update is accepted
             if inst["origin"] != "built":
                 tags.append("assign_to_copy")
             # the caller's container: untouched by the setter; then (scribble) re-used by the caller
@@ -1115,7 +1415,7 @@ def run_case(case):
             now = ev(m, idx + 1)
             lean_compare(m, ls, where, now, op)
             suffix = "" if inst["origin"] == "built" else ":on-deepcopy"
-            if not accepted and not same_eval(inst["prev"], now):
+            if not accepted and not same_eval(inst["prev"], now, exact=bool(sc)):
                 viol.append({"what": "evaluations change after a REJECTED assignment (%s)" % perr,
                              "signature": "eval-changed-after-rejected:%s%s" % (op["cls"], suffix),
                              "detail": "%s op=%s ; before %s after %s ; _paramValue=%s" % (where, json.dumps(op), _ev_s(inst["prev"]), _ev_s(now), getattr(m, "_paramValue", None))})
@@ -1137,7 +1437,7 @@ def run_case(case):
                 continue
             now_o = ev(other["m"], idx + 1)
             role = "original" if other["origin"] == "built" else "copy"
-            if not same_eval(other["prev"], now_o):
+            if not same_eval(other["prev"], now_o, exact=bool(sc)):
                 viol.append({"what": "an operation on ANOTHER instance changed the evaluations of this one (%s #%d)" % (role, j),
                              "signature": "other-instance-changed:%s:%s" % (op["cls"], role),
                              "detail": "%s (addressed to instance %s) ; instance %d before %s after %s" % (where, addressed, j, _ev_s(other["prev"]), _ev_s(now_o))})
@@ -1157,6 +1457,8 @@ def run_case(case):
         tags.append("stream:malformed")
     elif case.get("coincide"):
         tags.append("stream:coincide")
+    elif sc:
+        tags.append("stream:scale")
     else:
         tags.append("stream:regular")
     return {"nontrivial": nontrivial, "mismatches": mism, "violations": viol, "tags": sorted(set(tags)),
